@@ -290,9 +290,13 @@ def s_hs_error(vc):
     from props.tlsstub import mk_ssl
     kind = vc.case("openssl_error", ["unknown_ca", "other", "closed_by_peer"])
     waiting = vc.case("child_waits_for_open", [True, False])
+    # the TLS layer's connection is context.server, or another Server (ServerTLSLayer(ctx, conn): the https upstream proxy
+    # stack of HttpUpstreamProxy.make): a failed handshake with ANY server fires tls_failed_server, never tls_failed_client
+    which = vc.case("tls_connection", ["context.server", "other_server"])
     client = mk_client(vc)
-    server = mk_server(vc, state=ConnectionState.OPEN, timestamp_start=2.0, sni="example.com")
-    ctx = mk_context(vc, client, server, mk_options(vc))
+    ctx_server = mk_server(vc, state=ConnectionState.OPEN, timestamp_start=2.0, sni="example.com")
+    server = ctx_server if which == "context.server" else mk_server(vc, name="upstream-proxy", state=ConnectionState.OPEN, timestamp_start=2.0, sni="proxy.example", address=("proxy.example", 8443))
+    ctx = mk_context(vc, client, ctx_server, mk_options(vc))
     errs = {"unknown_ca": [("SSL routines", "", "tlsv1 alert unknown ca")], "other": [("SSL routines", "", "bad signature")]}
     exc = vc.new("OpenSSL.SSL:Error", args=(errs[kind],)) if kind != "closed_by_peer" else None
     ssl = mk_ssl(vc, handshake=[exc] if exc is not None else [])
@@ -317,7 +321,10 @@ def s_hs_error(vc):
     if kinds != ["Log", "TlsFailedServerHook", "CloseConnection", "ghost:child_event"]:
         return
     vc.ensure("error_recorded_on_connection", Not(isnone(server.error)))
+    vc.ensure("failed_hook_is_the_server_hook", is_cmd(out.trace[1], "TlsFailedServerHook") and not is_cmd(out.trace[1], "TlsFailedClientHook"))
     vc.ensure("failed_hook_for_this_connection", out.trace[1].data.conn is server and out.trace[1].data.context is ctx)
+    if which == "other_server":
+        vc.ensure("other_server.context_server_untouched", isnone(ctx_server.error) and vc.truthy(vc.eq(ctx_server.state, ConnectionState.OPEN)))
     vc.ensure("close_the_tunnel_connection", out.trace[2].connection is server)
     vc.ensure("tunnel_closed", vc.eq(layer.tunnel_state, TunnelState.CLOSED))
     cev = out.trace[3][2]
@@ -330,6 +337,40 @@ def s_hs_error(vc):
         vc.ensure("ciphertext_given_to_openssl_iff_nonempty", If(len_(data) > 0, len(ssl.inbox) == 1, len(ssl.inbox) == 0))
         if kind == "unknown_ca":
             vc.ensure("error_text.alert", vc.eq(server.error, "tlsv1 alert unknown ca"))
+
+
+@scenario("handshake_error.client_side", functions=["mitmproxy.proxy.tunnel:TunnelLayer._handle_event", L + ":TLSLayer.receive_handshake_data", L + ":TLSLayer.on_handshake_error", L + ":ClientTLSLayer.on_handshake_error",
+                                                   L + ":ClientTLSLayer.receive_handshake_data", L + ":ClientTLSLayer.errored"], max_unroll=3)
+def s_hs_error_client(vc):
+    """the twin on the client connection: tls_failed_client (never the server hook), close, and later events are swallowed"""
+    from mitmproxy.connection import ConnectionState
+    from mitmproxy.proxy.tunnel import TunnelState
+    from props.tlsstub import mk_ssl
+    client = mk_client(vc, sni=vc.resolve(vc.opt("sni", vc.sym_str("sni_v"))))
+    server = mk_server(vc, address=("example.com", 443))
+    ctx = mk_context(vc, client, server, mk_options(vc))
+    exc = vc.new("OpenSSL.SSL:Error", args=([("SSL routines", "", "tlsv1 alert unknown ca")],))
+    ssl = mk_ssl(vc, handshake=[exc])
+    child = vc.new("mitmproxy.proxy.layer:Layer", context=ctx, debug=None, _paused=None, _paused_event_queue=None)
+    queued = vc.new("mitmproxy.proxy.events:Start")
+    layer = vc.new(L + ":ClientTLSLayer", context=ctx, conn=client, tunnel_connection=client, child_layer=child, tls=ssl, tunnel_state=TunnelState.ESTABLISHING, command_to_reply_to=None,
+                   _event_queue=vc.list([queued]), recv_buffer=b"" if vc.mode == "sym" else bytearray(), client_hello_parsed=True, server_tls_available=False,
+                   debug=None, _paused=None, _paused_event_queue=None)
+    vc.summary("mitmproxy.proxy.layer:Layer.handle_event", child_event_summary)
+    ev = vc.new("mitmproxy.proxy.events:DataReceived", connection=client, data=vc.sym_bytes("data"))
+    out = vc.call("mitmproxy.proxy.tunnel:TunnelLayer._handle_event", layer, ev)
+    vc.ensure("no_exception", out.ok)
+    if not out.ok:
+        return
+    kinds = _kinds(out.trace)
+    vc.ensure("trace.log_clientfailedhook_close", kinds == ["Log", "TlsFailedClientHook", "CloseConnection"])
+    if kinds != ["Log", "TlsFailedClientHook", "CloseConnection"]:
+        return
+    vc.ensure("failed_hook_for_the_client_connection", out.trace[1].data.conn is client and out.trace[1].data.context is ctx)
+    vc.ensure("close_the_client_connection", out.trace[2].connection is client)
+    vc.ensure("error_recorded", Not(isnone(client.error)))
+    vc.ensure("tunnel_closed", vc.eq(layer.tunnel_state, TunnelState.CLOSED))
+    vc.ensure("child_never_sees_queued_events_after_failure", not any(k.startswith("ghost:") for k in kinds))
 
 
 # =============================================================================================
@@ -402,7 +443,7 @@ def _sans(cert):
     return v.get_values_for_type(x509.DNSName), [str(i) for i in v.get_values_for_type(x509.IPAddress)]
 
 
-def run_server_handshake(ta, tctx, leaf, leaf_key, chain, sni, address, secret=b"SECRET REQUEST"):
+def run_server_handshake(ta, tctx, leaf, leaf_key, chain, sni, address, secret=b"SECRET REQUEST", separate_conn=False):
     """Returns an observation dict of one upstream connection attempt through the real ServerTLSLayer."""
     from OpenSSL import crypto
     from mitmproxy import connection
@@ -415,34 +456,46 @@ def run_server_handshake(ta, tctx, leaf, leaf_key, chain, sni, address, secret=b
     class Child(Lr.Layer):
         def _handle_event(self, ev):
             if isinstance(ev, events.Start):
-                err = yield commands.OpenConnection(self.context.server)
+                err = yield commands.OpenConnection(target[0])
                 obs["err"] = err
                 if not err:
                     obs["sent"] = True
-                    yield commands.SendData(self.context.server, secret)
+                    yield commands.SendData(target[0], secret)
 
+    target = []
     c = connection.Client(peername=("127.0.0.1", 1), sockname=("127.0.0.1", 8080), timestamp_start=1.0, state=connection.ConnectionState.OPEN)
     ctx = pctx.Context(c, tctx.options)
-    ctx.server.address = address
-    ctx.server.sni = sni
-    lay = T.ServerTLSLayer(ctx)
+    if separate_conn:
+        # the TLS connection is a Server other than context.server (https upstream proxy: ServerTLSLayer(ctx, conn))
+        ctx.server.address = ("origin.example", 443)
+        srv = connection.Server(address=address)
+        srv.sni = sni
+        lay = T.ServerTLSLayer(ctx, srv)
+    else:
+        ctx.server.address = address
+        ctx.server.sni = sni
+        srv = ctx.server
+        lay = T.ServerTLSLayer(ctx)
+    target.append(srv)
     lay.child_layer = Child(ctx)
     log = []
     d = sansio.Driver(lay, hook_policy=P.addon_hook_policy(ta, log))
     peer = P.MemPeer(True, crypto.X509.from_cryptography(leaf), crypto.PKey.from_cryptography_key(leaf_key), chain=[crypto.X509.from_cryptography(x) for x in chain])
     d.start()
     for _ in range(30):
-        out = bytes(d.sent[ctx.server.id])
-        d.sent[ctx.server.id] = bytearray()
-        if not out or ctx.server.state is connection.ConnectionState.CLOSED:
+        out = bytes(d.sent[srv.id])
+        d.sent[srv.id] = bytearray()
+        if not out or srv.state is connection.ConnectionState.CLOSED:
             break
         back = peer.pump(out)
-        if back and ctx.server.state is not connection.ConnectionState.CLOSED:
-            d.data(ctx.server, back)
+        if back and srv.state is not connection.ConnectionState.CLOSED:
+            d.data(srv, back)
     peer.pump()
     names = d.hook_names()
-    obs.update(peer_received=bytes(peer.received), hooks=names, closed=[cc for cc, half in d.closed if cc is ctx.server], conn_error=ctx.server.error, addon_log=log,
-               established=names.count("tls_established_server"), failed=names.count("tls_failed_server"), state=lay.tunnel_state.name)
+    hook_conns_ok = all(h.data.conn is srv for n_, h in d.hooks if n_.startswith("tls_"))
+    obs.update(peer_received=bytes(peer.received), hooks=names, closed=[cc for cc, half in d.closed if cc is srv], conn_error=srv.error, addon_log=log,
+               established=names.count("tls_established_server"), failed=names.count("tls_failed_server"), state=lay.tunnel_state.name,
+               client_hooks=[n_ for n_ in names if n_.endswith("_client")], hook_conns_ok=hook_conns_ok)
     return obs
 
 
@@ -461,7 +514,7 @@ def bounded(tier, seed):
               "self-signed, wrong CA, intermediate with/without chain) x 10 SNI/address forms (exact, other label, two labels under a wildcard, apex, upper case, U-label, IPv4 x2, IPv6, no SNI => address) "
               "x trust {CA file, hashed CA directory, ssl_insecure} + the certificates shipped in test/mitmproxy/net/data/verificationcerts; outcome compared with an independent RFC 5280/6125 oracle; "
               "on failure: failure hook once, close, error reply, zero bytes decrypted by the server; distinct = (shape, sni, trust); non-trivial = verification on")
-    b.bound = "16 x 10 x 3 handshakes (all) + 12 with the repository's certificates + the no-SNI class"
+    b.bound = "16 x 10 x 3 handshakes (all) + 14 with a Server connection other than context.server (upstream proxy stack) + 12 with the repository's certificates + the no-SNI class"
     b.exhaustive = True
     root, shapes = _pki()
 
@@ -483,6 +536,8 @@ def bounded(tier, seed):
                       "insecure": dict(ssl_insecure=True, ssl_verify_upstream_trusted_ca=None, ssl_verify_upstream_trusted_confdir=None)}
 
             def check(inp, o, want_ok, insecure):
+                if o["client_hooks"] or not o["hook_conns_ok"]:
+                    b.fail("hooks.server_side_hooks_for_this_server_connection_only", inp, repr(o["hooks"]))
                 ok = o["err"] is None and o["sent"] and o["peer_received"] == b"SECRET REQUEST" and o["established"] == 1 and o["failed"] == 0
                 if insecure:
                     if not ok:
@@ -519,6 +574,16 @@ def bounded(tier, seed):
                             b.fail("harness.total", inp, f"{type(e).__name__}: {e}")
                             continue
                         check(inp, o, want, tname == "insecure")
+            # the TLS connection is not context.server (https upstream proxy stack): same verification, same server-side hooks
+            tctx.configure(ta, **trusts["file"])
+            for sname in ("match", "mismatch", "wildcard", "expired", "wrong_ca", "inter_chain", "cn_only"):
+                leaf, chain, chain_ok = shapes[sname]
+                dns, ips = _sans(leaf)
+                for sni in ("www.example.org", "foo.example.org"):
+                    inp = {"cert": sname, "sni": sni, "trust": "file", "connection": "upstream proxy (not context.server)"}
+                    b.case(("upstream-proxy", sname, sni))
+                    o = run_server_handshake(ta, tctx, leaf, P.key("leaf"), chain, sni, ("proxy.example", 8443), separate_conn=True)
+                    check(inp, o, chain_ok and name_matches(sni, dns, ips), False)
             # the repository's own verification certificates
             vdir = os.path.join(os.environ.get("PYVC_REPO", "/repo"), "test/mitmproxy/net/data/verificationcerts")
             from cryptography.hazmat.primitives import serialization
